@@ -66,13 +66,37 @@ def main(argv=None):
         seed = 0
     ids = PROPS if args.prop == "all" else [args.prop.upper()]
     worst = 0
+    # wall-clock guard: an analysis that does not terminate is an analysis error (fail closed), never a hang
+    try:
+        limit = int(os.environ.get("VERIF_TIMEOUT", "300" if args.tier == "quick" else "3600"))
+    except ValueError:
+        limit = 300
+
+    class _Timeout(BaseException):
+        pass
+
+    def _on_alarm(signum, frame):
+        raise _Timeout()
+    import signal
+    have_alarm = hasattr(signal, "SIGALRM")
+    if have_alarm:
+        signal.signal(signal.SIGALRM, _on_alarm)
     for pid in ids:
         if pid not in PROPS:
             print("ANALYSIS-ERROR unknown property %s" % pid)
             return 2
         try:
-            run = run_property(pid, args.tier, seed, write=not os.environ.get("VERIF_NO_EVIDENCE"))
+            if have_alarm:
+                signal.alarm(limit)
+            try:
+                run = run_property(pid, args.tier, seed, write=not os.environ.get("VERIF_NO_EVIDENCE"))
+            finally:
+                if have_alarm:
+                    signal.alarm(0)
             code = run.exit_code
+        except _Timeout:
+            print("ANALYSIS-ERROR property=%s the analysis did not finish within %d s (VERIF_TIMEOUT): no verdict" % (pid, limit))
+            code = 2
         except AnalysisError as e:
             print("ANALYSIS-ERROR property=%s %s: %s" % (pid, type(e).__name__, e))
             code = 2
